@@ -123,7 +123,7 @@ theorem flatMap_keys_length (keys : List Bytes) (hk : ∀ k ∈ keys, k.length =
   | cons k ks ih =>
     have hk33 : k.length = 33 := hk k (by simp)
     have hlt : k.length < 0x100 := by omega
-    have he : (emitBytes k).length = 35 := by simp [emitBytes, hlt, hk33]
+    have he : (emitBytes k).length = 35 := by simp [emitBytes, hk33]
     simp only [List.flatMap_cons, List.length_append, ih (fun x hx => hk x (by simp [hx])), he, List.length_cons]
     omega
 
@@ -211,7 +211,7 @@ theorem invScript_length (sigs : List Bytes) (hs : ∀ sg ∈ sigs, sg.length = 
   | cons k ks ih =>
     have h64 : k.length = 64 := hs k (by simp)
     have hlt : k.length < 0x100 := by omega
-    have he : (emitBytes k).length = 66 := by simp [emitBytes, hlt, h64]
+    have he : (emitBytes k).length = 66 := by simp [emitBytes, h64]
     simp only [invScript, List.flatMap_cons, List.length_append, he, List.length_cons] at ih ⊢
     rw [ih (fun x hx => hs x (by simp [hx]))]
     omega
